@@ -1301,7 +1301,13 @@ func (c *Compiler) writeCmp(left *node, leftVar string) {
 		c.wl("*result = ", leftVar, " != nil")
 		c.wl("}")
 		c.wl("return\n}")
-		return
+		if left.typ != typeBasic && left.typn != "[]byte" {
+			// Pointer to a struct, map or slice: only the nil check makes sense.
+			return
+		}
+		// Compare the value behind the pointer.
+		c.wl("if ", leftVar, " == nil { return }")
+		leftVar = "(*" + leftVar + ")"
 	}
 
 	// Get type name as a string.
